@@ -1183,3 +1183,10 @@ def check(ctx: Ctx) -> None:
     r13_3(ctx, uni)
     r13_4(ctx)
     r13_5(ctx)
+    # "start/run are accepted only with the node ON": the node-power guard of the software base classes is C12's rule R12.5
+    from . import c12
+    nuni = set(ctx.ix.enum_members(ctx.ix.cls("NodeOperatingState")))
+    tmp = Ctx(ctx.prop, "borrow", ctx.ix)
+    flows = c12.r12_1(tmp, nuni)
+    with ctx.borrowed({"R12.5": "R13.6"}):
+        c12.r12_5(ctx, nuni, flows)
